@@ -140,6 +140,10 @@ def gen1(seed, attempt):
         # --test-path: searched, but not put on sys.path (what cannot be imported from there
         # is still a test module: it is reported as an import problem)
         opt['root_kinds'] = [rng.choice(['path', 'test-path']) for _ in roots]
+    if rng.random() < 0.12:
+        # a search path given once more as a --package-path (script defaults + command
+        # line): searched after the plain paths, so every file is already taken - no effect
+        opt['package_path_dup'] = rng.randrange(len(roots))
     if rng.random() < 0.3:
         opt['tests_pattern'] = rng.choice(['^(tests|ftests)$', 'tests$', '^f?tests$'])
     if rng.random() < 0.3:
@@ -247,6 +251,10 @@ def run(spec, ctx):
     kinds = opt.get('root_kinds') or ['path'] * len(opt['roots'])
     for r, kind in zip(opt['roots'], kinds):
         args += ['--' + kind, os.path.join(top, r)]
+    if opt.get('package_path_dup') is not None:
+        args += ['--package-path',
+                 os.path.join(top, opt['roots'][opt['package_path_dup'] % len(opt['roots'])]),
+                 'stitched']
     if opt.get('tests_pattern'):
         args += ['--tests-pattern', opt['tests_pattern']]
     if opt.get('test_file_pattern'):
